@@ -1,6 +1,6 @@
 """C06 — cache callers see only their own outcome (see DESIGN.md 3.6)."""
 from . import _cache
-from ._cache import REAL, STUB, ASSUMPTIONS, shrink, run_case  # noqa
+from ._cache import REAL, STUB, ASSUMPTIONS, shrink  # noqa
 
 PROPERTY = 'C06'
 LEVEL = 'exploration'
@@ -28,3 +28,17 @@ def batches(tier):
 
 def make_case(batch, seed):
     return _cache.make_case(batch['profile'], seed)
+
+
+def run_case(case):
+    """C06 also owns 'cancelling or timing out one caller never ... delays any other caller beyond a recomputation':
+    C05's termination / idle-wait verdicts are reported here when the run cancelled or timed out some caller."""
+    r = _cache.run_case(case)
+    cancels = any('cancel_at' in c or 'timeout' in c for t in case['prog']['threads'] for c in t['callers']) or \
+        any(f['kind'] == 'cancel' for f in case['prog']['faults'])
+    if cancels:
+        for v in list(r['violations']):
+            if v['property'] == 'C05':
+                r['violations'].append(dict(v, property='C06', oracle='cache.bystander_delayed:' + v['oracle'].split('.')[-1],
+                                            signature='a caller is delayed beyond a recomputation in a run where another caller was cancelled or timed out'))
+    return r
